@@ -28,7 +28,7 @@ func newReduceMax() ops.Operator {
 // Init initializes the reduceMax operator.
 func (r *ReduceMax) Init(n *onnx.NodeProto) error {
 	attributes := n.GetAttribute()
-	if len(attributes) == 0 || len(attributes) > MaxReduceMaxAttributes {
+	if len(attributes) > MaxReduceMaxAttributes {
 		return ops.ErrInvalidOptionalAttributeCount(MinReduceMaxAttributes, MaxReduceMaxAttributes, len(attributes), r)
 	}
 
@@ -55,9 +55,22 @@ func (r *ReduceMax) Init(n *onnx.NodeProto) error {
 func (r *ReduceMax) Apply(inputs []tensor.Tensor) ([]tensor.Tensor, error) {
 	input := tensor.New(tensor.WithBacking(inputs[0].Data()), tensor.WithShape(inputs[0].Shape()...))
 
+	rank := len(input.Shape())
+
 	axes := make([]int, len(r.axes))
 	for i, axis := range r.axes {
-		axes[i] = ops.ConvertNegativeAxis(axis, len(input.Shape()))
+		if axis < -rank || axis >= rank {
+			return nil, ops.ErrAxisOutOfRange(-rank, rank, axis)
+		}
+
+		axes[i] = ops.ConvertNegativeAxis(axis, rank)
+	}
+
+	// When no axes are given, all axes are reduced.
+	if len(axes) == 0 {
+		for axis := 0; axis < rank; axis++ {
+			axes = append(axes, axis)
+		}
 	}
 
 	out, err := input.Max(axes...)
